@@ -479,3 +479,220 @@ pub fn run_front_ties(cx: &mut Ctx, th: bool) {
         ad_tie(cx, min_ops, interval, aggressive, window, &ops);
     }
 }
+
+// ---------------------------------------------------------------------------------------------
+// PA-Zip: the per-position loop of compress over a scripted match finder that only returns true matches
+// ---------------------------------------------------------------------------------------------
+fn strat4(st: &CompressionStrategy) -> [u128; 4] {
+    match st {
+        CompressionStrategy::Literal { length } => [0, *length as u128, 0, 0],
+        CompressionStrategy::Local { distance, length, match_type } => [1, *distance as u128, *length as u128, *match_type as u8 as u128],
+        CompressionStrategy::Global { dict_offset, length, .. } => [2, *dict_offset as u128, *length as u128, 0],
+    }
+}
+
+/// The payload is described by `ops` as in legacy_records_case ([0, n] n fresh literal bytes; [1, n] n bytes repeating what lies
+/// `period` back; [2, off, n] dict[off..off+n]).  The loop of compress_sequential_legacy is re-run through the two hooks with a
+/// match finder that, inside a planned match, answers with the rest of that match (a true match), and nothing elsewhere:
+/// candidates and selection are the real code's (verif_candidates), the record writer is the real code's (verif_apply_strategy).
+/// decompress of the records must give the payload.  `dict_big` uses a dictionary of more than 64 KiB (offsets beyond u16).
+pub fn pazip_sim_case(cx: &mut Ctx, period: usize, seed: u64, dict_big: bool, ops: &[Vec<u64>], force: bool) {
+    let cell = "pazip/compress_loop";
+    let cj = json!({"cell": cell, "period": period, "seed": seed, "dict_big": dict_big, "ops": ops});
+    cx.sum.eval(cell, &format!("psim {} {} {} {:?}", period, seed, dict_big, ops), ops.len() >= 2);
+    let mut r = Rng::new(seed ^ 0x51A);
+    let dict_text: Vec<u8> = { let mut t = TEXT.to_vec(); t.extend(r.bytes(if dict_big { 66_000 } else { 200 })); t };
+    let mut x: Vec<u8> = r.bytes(period.max(1));
+    // planned matches: (start, len, kind 1 local / 2 global, dict offset)
+    let mut plan: Vec<(usize, usize, u8, usize)> = vec![];
+    for op in ops {
+        match op.get(0).copied().unwrap_or(0) {
+            0 => { let n = op.get(1).copied().unwrap_or(1).min(1000) as usize; let fresh = r.bytes(n); x.extend_from_slice(&fresh); }
+            1 => {
+                let n = op.get(1).copied().unwrap_or(2).clamp(1, 140_000) as usize;
+                let d = period.max(1);
+                plan.push((x.len(), n, 1, 0));
+                for _ in 0..n { let b = x[x.len() - d]; x.push(b); }
+            }
+            _ => {
+                let off = (op.get(1).copied().unwrap_or(0) as usize).min(dict_text.len() - 1);
+                let n = (op.get(2).copied().unwrap_or(6) as usize).clamp(1, dict_text.len() - off);
+                plan.push((x.len(), n, 2, off));
+                x.extend_from_slice(&dict_text[off..off + n]);
+            }
+        }
+    }
+    let steps: std::cell::RefCell<Vec<(Option<(usize, usize)>, Option<(usize, usize)>, Vec<CompressionStrategy>, CompressionStrategy)>> = std::cell::RefCell::new(vec![]);
+    let stream_out: std::cell::RefCell<Vec<u8>> = std::cell::RefCell::new(vec![]);
+    let chosen: std::cell::RefCell<Vec<CompressionStrategy>> = std::cell::RefCell::new(vec![]);
+    let res = guarded(|| -> std::result::Result<Option<String>, String> {
+        let dict = SuffixArrayDictionary::new(&dict_text, SuffixArrayDictionaryConfig::default()).map_err(|e| format!("setup: {}", e))?;
+        let pool = SecureMemoryPool::new(SecurePoolConfig::new(4096, 1024, 8)).map_err(|e| format!("setup: {}", e))?;
+        let mut c = PaZipCompressor::new(dict, PaZipCompressorConfig::default(), pool).map_err(|e| format!("setup: {}", e))?;
+        let mut stream = Vec::new();
+        let mut pos = 0usize;
+        let mut guard = 0usize;
+        while pos < x.len() {
+            guard += 1;
+            if guard > x.len() + 8 { return Ok(Some("the loop does not advance".to_string())); }
+            let inside = plan.iter().find(|(s, n, _, _)| *s <= pos && pos < s + n);
+            let (local, global) = match inside {
+                Some((s, n, 1, _)) => (Some((period.max(1), s + n - pos)), None),
+                Some((s, n, _, off)) => (None, Some((off + (pos - s), s + n - pos))),
+                None => (None, None),
+            };
+            let (cands, sel) = c.verif_candidates(local, global).map_err(|e| format!("candidates refused: {}", e))?;
+            if !cands.iter().any(|k| strat4(k) == strat4(&sel)) { return Ok(Some(format!("selected {:?} is not a candidate", sel))); }
+            if (local.is_some() || global.is_some() || pos == 0) && steps.borrow().len() < 12 { steps.borrow_mut().push((local, global, cands.clone(), sel)); }
+            if x.len() <= 600 { chosen.borrow_mut().push(sel); }
+            let adv = c.verif_apply_strategy(&x, pos, sel, &mut stream).map_err(|e| format!("writer refused {:?}: {}", sel, e))?;
+            if adv == 0 { return Ok(Some(format!("strategy {:?} advances by 0", sel))); }
+            pos += adv;
+        }
+        *stream_out.borrow_mut() = stream.clone();
+        let mut y = Vec::new();
+        match c.decompress(&stream, &mut y) {
+            Ok(()) if y == x => Ok(None),
+            Ok(()) => { let at = y.iter().zip(x.iter()).position(|(a, b)| a != b).unwrap_or(y.len().min(x.len())); Ok(Some(format!("decompress of the loop's records differs at byte {} (|x|={}, |y|={})", at, x.len(), y.len()))) }
+            Err(e) => Ok(Some(format!("decompress of the loop's records = Err({})", e))),
+        }
+    });
+    // model ties: candidate lists (op 30) and, for small payloads, the replay of the chosen strategies (op 31)
+    let st = steps.borrow();
+    for (local, global, cands, _) in st.iter().filter(|_| PAZIP_MODEL_READY) {
+        let a = vec![local.is_some() as u128, local.map(|l| l.0).unwrap_or(0) as u128, local.map(|l| l.1).unwrap_or(0) as u128,
+                     global.is_some() as u128, global.map(|g| g.0).unwrap_or(0) as u128, global.map(|g| g.1).unwrap_or(0) as u128, PAZIP_LOCAL_GUARD];
+        let exp: Vec<u128> = cands.iter().flat_map(|k| strat4(k)).collect();
+        cx.coq(30, &a, &[], &exp, cj.clone(), force && (local.map(|l| l.1 >= 65535).unwrap_or(false) || global.map(|g| g.0 + 40 >= 65535).unwrap_or(false)));
+        if let Some((d, l)) = local { cx.sum.dist(&format!("pazip_loop_local_type={:?}", choose_best_compression_type(*d, *l).map(|t| t as u8))); }
+    }
+    if PAZIP_MODEL_READY && x.len() <= 600 && matches!(res, Ok(Ok(None))) {
+        let a: Vec<u128> = chosen.borrow().iter().flat_map(|sel| strat4(sel)).collect();
+        let mut exp = vec![1u128]; exp.extend(u(&stream_out.borrow()));
+        cx.coq(31, &a, &u(&x), &exp, cj.clone(), false);
+    }
+    drop(st);
+    match res {
+        Err(p) => cx.sum.fail(cell, None, cj, &format!("panicked: {}", p)),
+        Ok(Err(e)) if e.starts_with("setup") => cx.sum.dist("pazip_sim_setup_refused"),
+        Ok(Err(e)) => cx.sum.fail(cell, None, cj, &e),
+        Ok(Ok(Some(msg))) => cx.sum.fail(cell, None, cj, &msg),
+        Ok(Ok(None)) => {}
+    }
+}
+/// 1 when calculate_local_match_cost drops local candidates whose fields do not fit their record (the code after the fix)
+pub const PAZIP_LOCAL_GUARD: u128 = 1;
+const PAZIP_MODEL_READY: bool = true;
+
+pub fn run_pazip_sim(cx: &mut Ctx, th: bool) {
+    let periods = [1usize, 2, 3, 9, 10, 200, 257, 258, 259, 4000, 65535, 65536, 65793, 65794, 70000];
+    let lens = [1u64, 2, 3, 5, 6, 32, 33, 34, 35, 64, 65, 255, 256, 257, 300];
+    for (pi, &p) in periods.iter().enumerate() {
+        if !th && p > 60000 && pi % 2 == 1 { continue; }
+        for rep in 0..(if th { 6 } else { 2 }) {
+            let mut r = cx.rng.clone();
+            let n = r.range(1, 6) as usize;
+            let ops: Vec<Vec<u64>> = (0..n).map(|_| match r.below(6) {
+                0 => vec![0, r.range(1, 40)],
+                1 => vec![2, r.below(300), r.range(1, 280)],
+                _ => vec![1, if r.chance(2, 3) { *r.pick(&lens) } else { r.range(1, 400) }],
+            }).collect();
+            let seed = r.next() % 1000;
+            cx.rng = r;
+            if rep == 0 { pazip_sim_case(cx, p, seed, false, &[vec![1, lens[pi % lens.len()]]], false); }
+            pazip_sim_case(cx, p, seed, false, &ops, false);
+        }
+    }
+    // match lengths around the 16-bit length field of a Far2Long record, distances at both sides of the Far2Long / Far3Long border
+    for &p in &[1usize, 7, 65535, 65536] {
+        for &n in &[65534u64, 65535, 65536, 65537, 70_000, 131_072] {
+            if !th && (p == 7 || n == 70_000) { continue; }
+            pazip_sim_case(cx, p, n % 997, false, &[vec![0, 3], vec![1, n], vec![0, 2]], true);
+        }
+    }
+    // dictionary offsets around the 16-bit fields of a Global record
+    for &off in &[65534u64, 65535, 65536, 65537] {
+        pazip_sim_case(cx, 5, off % 991, true, &[vec![0, 2], vec![2, off, 40], vec![1, 7], vec![2, off - 30, 60]], true);
+    }
+}
+
+// ---------------------------------------------------------------------------------------------
+// SimdLz77Compressor (inherent methods) against coq/C02/ModelSimd.v  (ops 40..45 of RunCaseS.v)
+// ---------------------------------------------------------------------------------------------
+/// what the inherent decompress makes of a byte string: Ok bytes / Err / panic
+fn simd_obs(bytes: &[u8]) -> Option<Vec<u128>> {
+    let r = guarded(|| {
+        let mut c = SimdLz77Compressor::new().ok()?;
+        Some(SimdLz77Compressor::decompress(&mut c, bytes).map_err(|e| e.to_string()))
+    });
+    match r {
+        Err(_) => Some(vec![2]),
+        Ok(None) => None,
+        Ok(Some(Ok(y))) => { if y.len() > 60_000 { return None; } let mut e = vec![1u128]; e.extend(u(&y)); Some(e) }
+        Ok(Some(Err(_))) => Some(vec![0]),
+    }
+}
+/// a token stream written with the public bit codec (the one SimdLz77's private encode_matches uses)
+fn token_stream(ms: &[M3]) -> Option<Vec<u8>> {
+    let mut w = BitWriter::new();
+    for m in ms { let mm = to_match(m)?; encode_match(&mm, &mut w).ok()?; }
+    Some(w.finish())
+}
+pub fn simd_tie_bytes(cx: &mut Ctx, bytes: &[u8], force: bool) {
+    let cell = "simd_lz77/inherent";
+    let cj = json!({"cell": "simd_tie", "data": bytes});
+    cx.sum.eval(cell, &format!("stie {:?}", bytes), bytes.len() >= 2);
+    match simd_obs(bytes) {
+        Some(exp) => { cx.sum.dist(&format!("simd_decompress_outcome={}", exp[0])); cx.coq(40, &u(bytes), &[], &exp, cj, force) }
+        None => cx.sum.dist("simd_tie_skipped"),
+    }
+}
+pub fn run_simd_ties(cx: &mut Ctx, th: bool) {
+    // (a) what the real compressor writes for payload families (incl. ones made of the decoder's placeholder byte 'h',
+    //     a block repeated twice: literals + one long match, whose 27-bit Far2Long token leaves 5 padding bits)
+    for k in 0..(if th { 200 } else { 24 }) {
+        let mut r = cx.rng.clone();
+        let x: Vec<u8> = match k % 6 {
+            0 => vec![b'h'; r.range(1, 120) as usize],
+            1 => { let n = r.range(34, 60) as usize; let blk: Vec<u8> = (0..n as u8).collect(); let mut v = blk.clone(); v.extend_from_slice(&blk); v }
+            2 => { let n = r.range(4, 30) as usize; let blk = r.bytes(n); let mut v = vec![]; for _ in 0..r.range(2, 5) { v.extend_from_slice(&blk); } v }
+            _ => { let fam = r.below(10); let n = r.range(1, 150) as usize; payload(&mut r, fam, n) }
+        };
+        cx.rng = r;
+        let z = guarded(|| { let mut c = SimdLz77Compressor::new().ok()?; SimdLz77Compressor::compress(&mut c, &x).ok() });
+        if let Ok(Some(z)) = z { simd_tie_bytes(cx, &z, false); }
+    }
+    // (b) token streams the real finder does not produce: every kind, back-references beyond the output (placeholder letters),
+    //     Global tokens, RLE with a non-zero byte, streams with 0..7 padding bits
+    for _ in 0..(if th { 400 } else { 40 }) {
+        let mut r = cx.rng.clone();
+        let n = r.range(1, 8) as usize;
+        let mut ms: Vec<M3> = vec![];
+        let mut out_len = 0u64;
+        for _ in 0..n {
+            let m: M3 = match r.below(9) {
+                0 | 1 => (0, 0, r.range(1, 32)),
+                2 => (2, r.below(256), r.range(2, 33)),
+                3 => (3, r.range(2, 9), r.range(2, 5)),
+                4 => (4, r.range(2, 257).min(if r.chance(2, 3) { out_len.max(2) } else { 257 }), r.range(2, 33)),
+                5 => (5, r.range(258, 400), r.range(2, 33)),
+                6 => (6, if r.chance(2, 3) { r.range(1, out_len.max(1)) } else { r.below(300) }, r.range(34, 120)),
+                7 => (7, if r.chance(2, 3) { r.range(1, out_len.max(1)) } else { r.below(70_000) }, r.range(34, 90)),
+                _ => (1, r.below(1000), r.range(6, 40)),
+            };
+            out_len += m.2;
+            ms.push(m);
+        }
+        cx.rng = r;
+        if let Some(z) = token_stream(&ms) { simd_tie_bytes(cx, &z, false); }
+    }
+    // (c) arbitrary bytes
+    for _ in 0..(if th { 300 } else { 30 }) {
+        let mut r = cx.rng.clone();
+        let n = r.below(12) as usize;
+        let mut b = r.bytes(n);
+        if r.chance(1, 2) { for x in b.iter_mut() { if r.chance(1, 2) { *x &= 0x07; } } }
+        cx.rng = r;
+        simd_tie_bytes(cx, &b, false);
+    }
+}
